@@ -436,9 +436,9 @@ u_table(uint64_t idx, void *arg)
 void
 harness_run(void)
 {
-    for (uint64_t i = 0; i < (vh_tier ? 20000u : 700u); i++)
+    for (uint64_t i = 0; i < (vh_tier ? 80000u : 700u); i++)
         vh_unit("session", i, u_session, NULL);
-    for (uint64_t i = 0; i < (vh_tier ? 4000u : 300u); i++)
+    for (uint64_t i = 0; i < (vh_tier ? 20000u : 300u); i++)
         vh_unit("table", i, u_table, NULL);
     static char req[12][40];
     for (int i = 0; i < 12; i++) {
